@@ -225,7 +225,7 @@ impl StreamDef {
             Kind::Join { .. } => "join".into(),
             Kind::Distinct { .. } => "distinct".into(),
             Kind::Limit { .. } => "limit".into(),
-            Kind::FnFilter { .. } => "filter-fn".into(),
+            Kind::FnFilter { .. } => "fn-filter".into(),
         }
     }
     pub fn is_stateful(&self) -> bool {
